@@ -89,6 +89,8 @@ func newRig(entry, charset string) *rig {
 	return &rig{p, charset, entry}
 }
 
+var curChunks [][]byte
+
 // run feeds the chunks, then lets the timeout pass.
 func (r *rig) run(chunks [][]byte) (out []ri.Ev) {
 	defer func() {
@@ -97,6 +99,7 @@ func (r *rig) run(chunks [][]byte) (out []ri.Ev) {
 		}
 	}()
 	r.p.Reset()
+	curChunks = chunks
 	for _, c := range chunks {
 		out = append(out, ri.ConvAll(r.p.Feed(c))...)
 	}
@@ -133,6 +136,13 @@ func describe(p [][]byte) string {
 
 func main() {
 	w := hc.Start("C11")
+	w.WatchStall(func() (string, string, interface{}) {
+		var cs []string
+		for _, c := range curChunks {
+			cs = append(cs, fmt.Sprintf("%q", string(c)))
+		}
+		return "decode", "decoding the reads " + strings.Join(cs, " | ") + " (collectEventsFromInput does not return)", map[string]interface{}{"chunks": cs}
+	})
 	w.R.Rule = "for each stateless registered charset (+US-ASCII, UTF-8): every printable code point that round-trips through the x/text codec, as a one-character text, fed in one read, byte-wise and at every two-chunk split; all texts of length <=3 over 8 representatives per charset (each encoded length, first/last) under every split, bare, inside paste brackets, and with focus reports between characters, on a terminal with (xterm-256color) and without (vt220) paste support. distinct_nontrivial = distinct (charset, text) cases containing at least one multi-byte character"
 	w.R.Assumptions = []string{"the x/text (and gdamore/encoding) codecs define which byte strings are valid text of a charset", "U+FFFD itself is excluded (indistinguishable from a decoding error)", "splits are exhaustive for two chunks plus byte-wise; by the splitting argument in DESIGN.md 1.4 (state compared in C02) this covers every partition"}
 
